@@ -97,6 +97,10 @@ func (rl *ReconciledLoader) SetRemoteOnline(online bool) {
 		return
 	}
 	if rl.open && !wasOpen {
+		// items still queued from an earlier remote request (one that was
+		// cancelled by a pause) are not part of the response to the request we
+		// are about to send, which starts over from the root
+		rl.remoteQueue.clear()
 		// if we're opening a remote request, we need to reverify against what we've loaded so far
 		rl.verifier = traversalrecord.NewVerifier(rl.traversalRecord)
 	}
